@@ -209,7 +209,7 @@ func c14ContextScopeAs(c *Ctx, rule string) {
 	fn := c.Fn("cmd/auth/ntlm", "NTLMAuth.Authenticate")
 	key := shortFn(fn)
 	sessField := func(v ssa.Value) bool {
-		_, f, ok := fieldLoad(strip(v))
+		_, f, ok := fieldLoad(localVal(strip(v)))
 		return ok && f.Name() == "Session" && f.Pkg().Path() == modPath+"/shared/auth"
 	}
 	var getCtx, inner *ssa.Call
@@ -344,7 +344,7 @@ func c14EmptyArgs(c *Ctx) {
 		f := fld
 		want := c.FieldVar("shared/auth", "NtlmRequest", f)
 		m := func(v ssa.Value) bool {
-			_, fv, ok := fieldLoad(strip(v))
+			_, fv, ok := fieldLoad(localVal(strip(v)))
 			return ok && fv == want
 		}
 		ok, why := mustPass(fn, getCtx, GNeq(m, isEmpty))
@@ -449,6 +449,15 @@ func c14Database(c *Ctx) {
 						good = true
 					}
 				}
+			case o.Kind == "other" && isLookup(o.Value):
+				// a map from user name to password, filled by NewConfig with m[u.Username] = u.Password
+				lk := o.Value.(*ssa.Lookup)
+				_, mf, isF := fieldLoad(strip(lk.X))
+				if !isF || !c.allUp(lk.Index, isName) || !c.passwordMapFilledExactly(mf) {
+					bad = true
+				} else {
+					good = true
+				}
 			default:
 				bad = true
 			}
@@ -466,4 +475,49 @@ func c14Database(c *Ctx) {
 		}
 	})
 	c.Check(okKey, rule, shortFn(nc), nc.Pos(), "users are keyed by their configured Username", "the user map is not keyed by the configured Username")
+}
+
+func isLookup(v ssa.Value) bool {
+	lk, ok := v.(*ssa.Lookup)
+	return ok && !lk.CommaOk
+}
+
+// passwordMapFilledExactly: every update of a map that ends up in Config.<field> stores, under
+// element.Username, that same element's Password — and the field is set only by NewConfig.
+func (c *Ctx) passwordMapFilledExactly(field *types.Var) bool {
+	nc := c.FnOpt("cmd/auth/database", "NewConfig")
+	if nc == nil {
+		return false
+	}
+	ok := true
+	n := 0
+	eachInstr(nc, func(in ssa.Instruction) {
+		mu, isMU := in.(*ssa.MapUpdate)
+		if !isMU {
+			return
+		}
+		if _, isStr := mu.Map.Type().Underlying().(*types.Map).Elem().Underlying().(*types.Basic); !isStr {
+			return
+		}
+		n++
+		kb, kf, okk := fieldLoad(strip(mu.Key))
+		vb, vf, okv := fieldLoad(strip(mu.Value))
+		if !okk || !okv || kf.Name() != "Username" || vf.Name() != "Password" || !sameLoc(kb, vb) && kb != vb {
+			ok = false
+		}
+	})
+	// other writers of the field
+	for _, f := range c.allFirstPartyFuncs() {
+		if f == nc {
+			continue
+		}
+		eachInstr(f, func(in ssa.Instruction) {
+			if st, isSt := in.(*ssa.Store); isSt {
+				if _, fv, isF := fieldOfAddr(st.Addr); isF && fv == field {
+					ok = false
+				}
+			}
+		})
+	}
+	return ok && n > 0
 }
